@@ -45,3 +45,23 @@ def all_identity(c) -> bool:
         if k[1] != c[1][k[3]:k[4]] or not all_identity(k):
             return False
     return True
+
+
+def skips_any(c) -> bool:
+    """True if, anywhere in the sub-tree, the substitution rule skips (because it starts before the
+    end of the last substituted child) a child that would otherwise have been substituted. On trees
+    where it is False the deprecated query.squash_replace (no overlap skipping) must agree with flatten."""
+    value = c[1]
+    last_end = 0
+    for k in c[5]:
+        if skips_any(k):
+            return True
+        s, e = k[3], k[4]
+        changed = flatten_ref(k) != value[s:e]
+        if s < last_end:
+            if changed:
+                return True
+            continue
+        if changed:
+            last_end = e
+    return False
